@@ -44,6 +44,23 @@ pub fn tt_of<F: BooleanFunction>(f: &F, n: u32) -> Vec<i64> {
     r.unwrap_or_else(|_| vec![-1])
 }
 
+/// truth table by `eval` with argument lists in which every variable occurs twice, first with the
+/// opposite value, then (in reverse variable order) with the intended one: the last value counts
+pub fn tt_dup_of<F: BooleanFunction>(f: &F, n: u32) -> Vec<i64> {
+    let r = catch(|| {
+        let mut tt = Vec::new();
+        for a in 0..(1u32 << n) {
+            let first = (0..n).map(|v| (v, (a >> v) & 1 == 0));
+            let second = (0..n).rev().map(|v| (v, (a >> v) & 1 == 1));
+            if f.eval(first.chain(second)) {
+                tt.push(a as i64);
+            }
+        }
+        tt
+    });
+    r.unwrap_or_else(|_| vec![-1])
+}
+
 impl<'t, F: Kind + BooleanFunction> Session<'t, F> {
     pub fn new(out: &'t mut TraceOut, cap: usize, cache: usize, threads: u32) -> Self {
         Self::new_tagged(out, cap, cache, threads, "")
@@ -285,7 +302,8 @@ impl<'t, F: Kind + BooleanFunction> Session<'t, F> {
                 classes[f],
                 sorted[f],
                 f.satisfiable(),
-                f.valid()
+                f.valid(),
+                tt_dup_of(f, n)
             ]));
         }
         // direct pairwise == on a bounded number of pairs (not via Hash)
